@@ -6,6 +6,7 @@ import (
 	"fmt"
 	"go/token"
 	"go/types"
+	"math/big"
 	"sort"
 	"strings"
 
@@ -38,9 +39,40 @@ func (w *World) termWindow(t *Term) (*Term, int, bool) {
 			}
 			base = base.A
 		}
-		return base, sh, true
+		return w.dropHighConst(base, sh), sh, true
 	}
-	return t, 0, true
+	return w.dropHighConst(t, 0), 0, true
+}
+
+// dropHighConst: byte((C + x) >> sh) = byte(x >> sh) when C is a multiple of
+// 2^(sh+8): the constant does not reach the window (AppendUint16(out,
+// uint16(zero)<<8 + uint16(n)) writes byte(n) as its low octet).
+func (w *World) dropHighConst(base *Term, sh int) *Term {
+	for base != nil && base.K == TBin && base.Op == token.ADD {
+		c, x := base.A, base.B
+		if c.K != TConst {
+			c, x = base.B, base.A
+		}
+		if c.K != TConst || c.C.Sign() < 0 {
+			break
+		}
+		if bits, _, ok := intTypeInfo(w, base.T); !ok || uint(sh+8) > bits {
+			break
+		}
+		m := new(big.Int).Lsh(one, uint(sh+8))
+		if new(big.Int).Mod(c.C, m).Sign() != 0 {
+			break
+		}
+		base = x
+		for base.K == TConv {
+			bits, _, ok := intTypeInfo(w, base.T)
+			if _, _, isInt := intTypeInfo(w, base.A.T); !ok || !isInt || uint(sh+8) > bits {
+				break
+			}
+			base = base.A
+		}
+	}
+	return base
 }
 
 // termTagPlus decomposes byte(zero + (base >> s)) (also zero | x).
@@ -50,6 +82,39 @@ func (w *World) termTagPlus(t *Term) (int64, *Term, int, bool) {
 	}
 	for t.K == TConv {
 		t = t.A
+	}
+	// byte((C + x) >> s) with C a multiple of 2^s is byte((C >> s) + (x >> s)): the
+	// shift distributes over the sum because nothing carries out of the low s bits
+	// (a 16-bit header written at once: uint16(zero)<<8 + uint16(n))
+	if t.K == TBin && t.Op == token.SHR && t.B.K == TConst && t.B.C.IsInt64() {
+		s := uint(t.B.C.Int64())
+		in := t.A
+		for in.K == TConv {
+			bits, _, ok := intTypeInfo(w, in.T)
+			if _, _, isInt := intTypeInfo(w, in.A.T); !ok || !isInt || s+8 > bits {
+				break
+			}
+			in = in.A
+		}
+		if in.K == TBin && in.Op == token.ADD {
+			c, x := in.A, in.B
+			if c.K != TConst {
+				c, x = in.B, in.A
+			}
+			bits, _, okT := intTypeInfo(w, in.T)
+			if c.K == TConst && c.C.Sign() >= 0 && okT && s+8 <= bits && new(big.Int).Mod(c.C, new(big.Int).Lsh(one, s)).Sign() == 0 {
+				for x.K == TConv {
+					xb, _, ok := intTypeInfo(w, x.T)
+					if _, _, isInt := intTypeInfo(w, x.A.T); !ok || !isInt || s+8 > xb {
+						break
+					}
+					x = x.A
+				}
+				zero := new(big.Int).Rsh(c.C, s)
+				zero.And(zero, big.NewInt(255))
+				return zero.Int64(), x, int(s), true
+			}
+		}
 	}
 	if t.K != TBin || (t.Op != token.ADD && t.Op != token.OR) {
 		return 0, nil, 0, false
@@ -619,18 +684,29 @@ func (w *World) decoderDateUnit(dec *ssa.Function, t int) (string, string) {
 		return "?", "-"
 	}
 	unit := "?"
-	if call, ok := run.Ret.Results[0].(*ssa.Call); ok && call.Call.StaticCallee() != nil {
-		switch qualifiedFnName(call.Call.StaticCallee()) {
+	// the constructor the returned time comes from ON THIS PATH (the operand of the
+	// return may be a φ of a named result: the recorded call behind its term decides)
+	org := run.Origin
+	if org == nil && run.State != nil {
+		org = run.State.originOf(run.Result)
+	}
+	if org != nil {
+		switch callName(org) {
 		case "time.UnixMilli":
 			unit = "milliseconds"
 		case "time.Unix":
 			unit = "seconds"
-			f := w.flow(dec)
-			if k, isC := call.Call.Args[1].(*ssa.Const); !isC || k.Int64() != 0 {
-				unit = "nanoseconds-scaled"
-			}
-			if tt := f.term(call.Call.Args[0]); tt.K == TBin && tt.Op == token.MUL && tt.B.K == TConst && tt.B.C.Int64() == 60 {
-				unit = "minutes"
+			if len(org.Args) == 2 {
+				if k := org.Args[1]; k.K != TConst || k.C.Sign() != 0 {
+					unit = "nanoseconds-scaled"
+				}
+				tt := org.Args[0]
+				for tt.K == TConv {
+					tt = tt.A
+				}
+				if tt.K == TBin && tt.Op == token.MUL && tt.B.K == TConst && tt.B.C.IsInt64() && tt.B.C.Int64() == 60 {
+					unit = "minutes"
+				}
 			}
 		}
 	}
